@@ -55,4 +55,26 @@ PROPS = {
         explanation="Lean theorems over the correlator model (ids even/distinct, invariant of reachable states, own response, unknown/duplicate ignored, cancel isolated, typed); tie = differential run of the real wire.ClientConn against the model",
         assumptions=["fewer than 2^31-1 requests per connection (uint32 id wrap-around)"],
     ),
+    'C19': dict(
+        lean_modules=['Iscp.Props.C19'],
+        gen=[],
+        harnesses=[dict(name='multi', pkg='./corr/multi', topic='multi', n_quick=40, n_thorough=200, thorough_seeds=3)],
+        trusted_base=COMMON_TB + [
+            "modelled, not verified: goroutines of readLoop/transportIDLoop (a history = any list of select/write/memberRead/read/close events), sync.RWMutex, channels; the scripted member transports of the harness",
+        ],
+        rule="cases = every member set over ids 1..4 (16 sets) x every initial id 0..5 (incl. the empty id and foreign ids), each followed by a random history of scheduler selections (members, foreign ids, empty id), writes, AsUnreliable/NegotiationParams, member reads and merged reads, counters and Close; plus per-member order cases, round-robin poller cases and last-used poller cases on a polling-mode transport; distinct = (member set, initial id, event signature); non-trivial = configuration accepted and at least two members (sampled)",
+        explanation="Lean theorems (invariant current-is-member over all histories, routing, exactly-once merge, close, counters, pollers); tie = differential run of a real multi.Transport over scripted members against the model",
+        assumptions=["member Read/Write behave as reliable transports (scripted)", "the empty transport id is not a member id"],
+    ),
+    'C18': dict(
+        lean_modules=['Iscp.Props.C18'],
+        gen=[],
+        harnesses=[dict(name='rec', pkg='./corr/rec', topic='rec', n_quick=250, n_thorough=1500, thorough_seeds=4)],
+        trusted_base=COMMON_TB + [
+            "modelled, not verified: the three goroutines of the transport (write loop, read loop, ping loop) serialised as events; timers (1 ms reconnect interval in the harness); the scripted dialer and underlying transports",
+        ],
+        rule="cases = random histories on a real reconnect.Transport (budget 1-3): writes, bursts of 2-5 concurrent writers, scripted underlying write failures, read failures, redial outcome scripts (ok / dial failure / handshake failure, shorter and longer than the budget), delivered messages and control pings, reads, Close; oracle on the implementation: each nil-returning write is in exactly one incarnation's log and logs concatenate to issue order, every redial reuses the transport id with the reconnect flag, nothing blocks after exhaustion or Close; distinct = (budget, event signature); non-trivial = at least one injected failure (sampled)",
+        explanation="Lean theorems over the reconnect model for all histories (accepted once in order, redial flags, ping filtered, reads continue, budget, dead means error); tie = differential run of the real transport against the model",
+        assumptions=["an underlying Write that returns an error did not deliver", "single-writer issue order; for concurrent bursts only exactly-once is claimed (order between concurrent writers is the scheduler's)"],
+    ),
 }
